@@ -1,7 +1,7 @@
 (* C20 — support helpers faithfully build and bind signatures *)
 From Coq Require Import List NArith Bool.
 From Sigtools.Model Require Import Base Bind Algebra Universe Support.
-From Sigtools.Proofs Require Import Support.
+From Sigtools.Proofs Require Import Support SupportFull SupportAccepts.
 Import ListNotations.
 
 Theorem C20_bind : forall ps args kws, valid_sig ps = true -> NoDup (map fst kws) -> po_kw_collision ps kws = false -> match bind_callsig ps args kws, bindv ps args kws with BOk a, Some b => forall x, dget a x = dget b x | BErr _, None => True | _, _ => False end.
@@ -39,3 +39,43 @@ Print Assumptions C20_makeup_dict.
 Theorem C20_roundtrip_bounded : forall ps, In ps (universe 2 [1%N; 2%N] 9%N 10%N) -> roundtrip_native ps None = true /\ roundtrip_native (annot ps) (Some 7%N) = true.
 Proof. exact roundtrip_native_U2. Qed.
 Print Assumptions C20_roundtrip_bounded.
+
+(* ---- round trip for ALL well-formed signatures and every spelling (Proofs/SupportFull.v), the value-level
+   binder against the shape-level acceptance (Proofs/SupportAccepts.v); the hypotheses the proofs forced,
+   as refutations ---- *)
+Theorem C20_roundtrip_native_all : forall (ps : list param) (ret : option N), wf_sig ps = true -> roundtrip_native ps ret = true.
+Proof. exact @SupportFull.roundtrip_native_all. Qed.
+Print Assumptions C20_roundtrip_native_all.
+
+Theorem C20_roundtrip_all_without_kwoargs : forall (ps : list param) (ret : option N) (oa op : bool), wf_sig ps = true -> code_sig (func_code (read_sig (print_sig ps) oa op false) ret oa) = Some (ps, ret).
+Proof. exact @SupportFull.roundtrip_all_without_kwoargs. Qed.
+Print Assumptions C20_roundtrip_all_without_kwoargs.
+
+Theorem C20_roundtrip_modifiers_all : forall (ps : list param) (ret : option N) (oa op ok : bool), wf_sig ps = true -> has_kind PO ps = false -> code_sig (func_code (read_sig (print_sig ps) oa op ok) ret oa) = Some (if ok then ko_sorted ps else ps, ret).
+Proof. exact @SupportFull.roundtrip_modifiers_all. Qed.
+Print Assumptions C20_roundtrip_modifiers_all.
+
+Theorem C20_ko_sorted_spec : forall ps : list param, valid_sig ps = true -> has_kind PO ps = false -> Permutation.Permutation (ko_sorted ps) ps /\ filter (fun p : param => negb (is_kind KO p)) (ko_sorted ps) = filter (fun p : param => negb (is_kind KO p)) ps /\ filter (is_kind KO) (ko_sorted ps) = filter ko_nodef ps ++ filter ko_def ps.
+Proof. exact @SupportFull.ko_sorted_spec. Qed.
+Print Assumptions C20_ko_sorted_spec.
+
+Theorem C20_roundtrip_star_default_refuted : exists ps : list param, valid_sig ps = true /\ eager ps = true /\ roundtrip_native ps None = false.
+Proof. exact @SupportFull.roundtrip_star_default_refuted. Qed.
+Print Assumptions C20_roundtrip_star_default_refuted.
+
+Theorem C20_roundtrip_not_eager_refuted : exists ps : list param, valid_sig ps = true /\ star_nodef ps = true /\ roundtrip_native ps None = false.
+Proof. exact @SupportFull.roundtrip_not_eager_refuted. Qed.
+Print Assumptions C20_roundtrip_not_eager_refuted.
+
+Theorem C20_roundtrip_kwoargs_po_refuted : exists ps : list param, wf_sig ps = true /\ code_sig (func_code (read_sig (print_sig ps) false false true) None false) = None /\ (exists ps' : list param, wf_sig ps' = true /\ code_sig (func_code (read_sig (print_sig ps') false true true) None false) = None).
+Proof. exact @SupportFull.roundtrip_kwoargs_po_refuted. Qed.
+Print Assumptions C20_roundtrip_kwoargs_po_refuted.
+
+Theorem C20_bindv_iff_accepts : forall (ps : list param) (args : list N) (kws : list (name * N)), valid_sig ps = true -> is_some (bindv ps args kws) = accepts ps {| npos := length args; kws := map fst kws |}.
+Proof. exact @SupportAccepts.bindv_iff_accepts. Qed.
+Print Assumptions C20_bindv_iff_accepts.
+
+Theorem C20_bind_callsig_iff_accepts : forall (ps : list param) (args : list N) (kws : list (name * N)), valid_sig ps = true -> NoDup (map fst kws) -> po_kw_collision ps kws = false -> match bind_callsig ps args kws with | BOk _ => accepts ps {| npos := length args; kws := map fst kws |} = true | BErr _ => accepts ps {| npos := length args; kws := map fst kws |} = false end.
+Proof. exact @SupportAccepts.bind_callsig_iff_accepts. Qed.
+Print Assumptions C20_bind_callsig_iff_accepts.
+
